@@ -196,6 +196,15 @@ TRANSPARENT_METHODS = (
 )
 
 
+# adapters whose Ok/Some payload is the Ok/Some payload of their first argument
+PAYLOAD_PRESERVING = (
+    "core::result::Result::<T, E>::map_err", "core::result::Result::<T, E>::ok", "core::option::Option::<T>::ok_or", "core::option::Option::<T>::ok_or_else",
+    "core::result::Result::<T, E>::inspect_err", "core::option::Option::<&T>::cloned", "core::option::Option::<&T>::copied", "core::option::Option::<T>::cloned",
+    "core::option::Option::<T>::copied", "core::option::Option::<T>::take", "core::option::Option::<T>::as_ref", "core::option::Option::<T>::as_mut",
+    "core::result::Result::<T, E>::as_ref", "core::result::Result::<T, E>::as_mut",
+)
+
+
 # container operations: the element projection of the use is carried through to the element that was put in
 CONTAINER_SHORT = ("push", "push_back", "push_front", "into_iter", "iter", "iter_mut", "next", "pop", "pop_front", "pop_back", "collect", "extend",
                    "drain", "cloned", "copied", "rev", "by_ref", "peekable", "flatten")
@@ -492,7 +501,8 @@ def backward(body, op, proj=(), stop=None, through_calls=True, max_nodes=20000, 
                     agg = rv.get("agg")
                     if agg in ("adt", "tuple", "closure", "coroutine"):
                         if r and r[0][0] == "dc":
-                            if agg == "adt" and rv.get("variant") != r[0][1]:
+                            want_v = r[0][1]
+                            if agg == "adt" and (rv.get("variant") not in want_v if isinstance(want_v, tuple) else rv.get("variant") != want_v):
                                 continue
                             r = r[1:]
                         if r and r[0][0] == "f" and r[0][1] < len(rv["ops"]):
@@ -509,14 +519,25 @@ def backward(body, op, proj=(), stop=None, through_calls=True, max_nodes=20000, 
             elif df["kind"] == "call":
                 t = df["term"]
                 if is_transparent(t):
-                    # strip a leading (dc X).0 pair: Continue.0 / Ready.0 of the adapter's result
                     r = list(rest)
-                    if len(r) >= 2 and r[0][0] == "dc" and r[1][0] == "f" and r[1][1] == 0 and r[0][1] in ("Continue", "Ready", "Break"):
-                        r = r[2:]
                     d = callee_def(t)
+                    lead = r[0][1] if len(r) >= 2 and r[0][0] == "dc" and r[1][0] == "f" and r[1][1] == 0 else None
+                    if d.endswith("FromResidual::from_residual") and (isinstance(lead, tuple) or lead in ("Ok", "Some")):
+                        continue        # a residual carries the failure: it contributes nothing to the success payload
+                    if d.endswith("Try::branch") and lead == "Continue":
+                        # `x?`: the Continue payload is the Ok / Some payload of x - keep asking for that payload (field-sensitive through `?`)
+                        r = [("dc", ("Ok", "Some")), r[1]] + r[2:]
+                    elif lead in ("Continue", "Ready", "Break"):
+                        # strip a leading (dc X).0 pair: Ready.0 / Break.0 of the adapter's result
+                        r = r[2:]
                     if d.endswith("Future::poll") or d.endswith("Try::branch") or d.endswith("into_future") or d.endswith("new_unchecked"):
                         if t["args"]:
                             push_op(t["args"][0], r, dbi)
+                    elif d in PAYLOAD_PRESERVING and t["args"]:
+                        # Option/Result adapters that hand the success payload on unchanged: the projection stays on the first argument
+                        push_op(t["args"][0], r if lead is None or isinstance(lead, tuple) or lead in ("Ok", "Some") else (), dbi)
+                        for a in t["args"][1:]:
+                            push_op(a, (), dbi)
                     else:
                         for a in t["args"]:
                             push_op(a, (), dbi)
